@@ -51,6 +51,8 @@ type Contract struct {
 	SamePkg    string
 	SameAs     string   // take clauses and parameter names from this contract
 	Dead       []string // return sites declared unreachable (must be proved unreachable)
+	Scope      string   // extern/iface contract valid only for callers in this package (relative path)
+	Unguarded  bool     // constructor: the object is not shared yet, guarded fields may be written without the lock
 }
 
 type GhostDecl struct {
@@ -73,9 +75,18 @@ type ContractFile struct {
 	Contracts []*Contract
 	Ghosts    []GhostDecl
 	Preludes  []string // names of prelude files this package's contracts need
+	Guards    []GuardDecl
+	LibState  []string // heaps holding library-private state (container/list, ...): never constrained, havocked by every call
 }
 
-var kwRe = regexp.MustCompile(`^(requires|ensures|modifies|panics|may_panic|loop|mode|extern|assumed|pure|props|noinline|uses|iface|hint|trigger|dead|same_as|instance)\b`)
+// GuardDecl: `//@ guarded T.f1, T.f2 by T.m` - fields f1, f2 of struct T may only be accessed while the
+// sync.Mutex field m of the same struct is held.
+type GuardDecl struct {
+	Pkg, Type, Mutex string
+	Fields           []string
+}
+
+var kwRe = regexp.MustCompile(`^(requires|ensures|modifies|panics|may_panic|unguarded|scope|loop|mode|extern|assumed|pure|props|noinline|uses|iface|hint|trigger|dead|same_as|instance)\b`)
 
 // parseContractFile reads //@ lines. pkgPath is the import path the file belongs to
 // (can be overridden by a `//@ package <path>` line for extern contract files).
@@ -128,6 +139,32 @@ func parseContractFile(path, pkgPath string) (*ContractFile, error) {
 			inv := &Invariant{Name: strings.TrimSpace(rest[:ci]), Pkg: cf.Pkg, Text: strings.TrimSpace(rest[ci+1:])}
 			cf.Invariants = append(cf.Invariants, inv)
 			lastInv = inv
+			continue
+		case strings.HasPrefix(text, "library_state "):
+			flush()
+			cf.LibState = append(cf.LibState, strings.Fields(text)[1:]...)
+			continue
+		case strings.HasPrefix(text, "guarded "):
+			flush()
+			rest := strings.TrimSpace(strings.TrimPrefix(text, "guarded "))
+			bi := strings.Index(rest, " by ")
+			if bi < 0 {
+				return nil, fmt.Errorf("%s:%d: guarded T.f, ... by T.m", path, ln+1)
+			}
+			mu := strings.TrimSpace(rest[bi+4:])
+			di := strings.Index(mu, ".")
+			if di < 0 {
+				return nil, fmt.Errorf("%s:%d: guarded T.f, ... by T.m", path, ln+1)
+			}
+			gd := GuardDecl{Pkg: cf.Pkg, Type: mu[:di], Mutex: mu[di+1:]}
+			for _, f := range strings.Split(rest[:bi], ",") {
+				f = strings.TrimSpace(f)
+				if !strings.HasPrefix(f, gd.Type+".") {
+					return nil, fmt.Errorf("%s:%d: guarded fields must belong to %s", path, ln+1, gd.Type)
+				}
+				gd.Fields = append(gd.Fields, strings.TrimPrefix(f, gd.Type+"."))
+			}
+			cf.Guards = append(cf.Guards, gd)
 			continue
 		case strings.HasPrefix(text, "ghost "):
 			flush()
@@ -190,6 +227,9 @@ func parseContractFile(path, pkgPath string) (*ContractFile, error) {
 		case "may_panic":
 			cur.MayPanic = true
 			last = nil
+		case "unguarded":
+			cur.Unguarded = true
+			last = nil
 		case "pure":
 			cur.Pure = true
 			last = nil
@@ -212,6 +252,10 @@ func parseContractFile(path, pkgPath string) (*ContractFile, error) {
 			last = nil
 		case "uses":
 			cur.Uses = append(cur.Uses, strings.Fields(rest)...)
+			last = nil
+		case "scope":
+			// this (extern/iface) contract applies only at call sites inside the named repository package
+			cur.Scope = rest
 			last = nil
 		case "mode":
 			cur.ModeSet = true
@@ -447,6 +491,9 @@ func loadContracts(repo, specDir string) (map[string]*Contract, []GhostDecl, []*
 				} else {
 					k += "@heap"
 				}
+			}
+			if c.Scope != "" {
+				k += "#" + c.Scope
 			}
 			if prev, dup := out[k]; dup {
 				return fmt.Errorf("duplicate contract for %s (%s:%d and %s:%d)", k, prev.File, prev.Line, c.File, c.Line)
